@@ -69,6 +69,75 @@ let parse_dir () : tfile list =
 let show_exit = function
   | ADone -> "ok" | APend PNoPending -> "ok" | AFail _ -> "fail" | ADirective -> "fail" | APend _ -> "fail"
 
+(* ---- foreign-key check at commit (FkModel.v) ---- *)
+let z_of_int i = if i = 0 then Z0 else if i > 0 then Zpos (pos_of_int i) else Zneg (pos_of_int (-i))
+let int_of_z = function Z0 -> 0 | Zpos p -> int_of_pos p | Zneg p -> - (int_of_pos p)
+let parse_viol () =
+  let t = bytes_of_string (unhex (next ())) in
+  let r = next_int () in
+  let rf = bytes_of_string (unhex (next ())) in
+  let i = next_int () in
+  { v_tbl = t; v_row = z_of_int r; v_ref = rf; v_index = z_of_int i }
+let parse_viols () = let n = next_int () in Stdlib.List.init n (fun _ -> ()) |> Stdlib.List.map (fun () -> parse_viol ())
+let show_viols vs =
+  String.concat "," (Stdlib.List.sort compare (Stdlib.List.map (fun v ->
+    Printf.sprintf "%s:%d:%s:%d" (string_of_bytes v.v_tbl) (int_of_z v.v_row) (string_of_bytes v.v_ref) (int_of_z v.v_index)) vs))
+let starts_with p s = String.length s >= String.length p && String.sub s 0 (String.length p) = p
+
+(* what PRAGMA foreign_key_check reports for a set of effects: measured by the harness with an
+   independent client for the initial database and for each statement that touches the FK tables
+   (at most one of them is ever present): the set of the last such statement, else the initial one *)
+let violations_of pre (special : (string * (string * violation list)) list) (j : bytes list) : violation list =
+  Stdlib.List.fold_left (fun acc s ->
+    match Stdlib.List.assoc_opt (string_of_bytes s) special with Some (_, vs) -> vs | None -> acc) pre j
+
+(* "F nsteps fk npre {viol} nspecial {stmt name nviol {viol}} {mode n dir}" |
+   "V txmode fk N bad canon_0..canon_N nbefore {viol} nafter {viol}" *)
+let run_fk_line id =
+  match next () with
+  | "F" ->
+    let nsteps = next_int () in
+    let fk = next () = "1" in
+    let pre = parse_viols () in
+    let nsp = next_int () in
+    let special = Stdlib.List.init nsp (fun _ -> ()) |> Stdlib.List.map (fun () ->
+      let st = unhex (next ()) in let name = next () in let vs = parse_viols () in (st, (name, vs))) in
+    let viol = violations_of pre special in
+    let db = ref { d_journal = []; d_tbl = [] } in
+    for i = 0 to nsteps - 1 do
+      let mode = mode_of (next ()) in
+      let n = next_int () in
+      let dir = parse_dir () in
+      let (o, d') = apply_run_fk heq hs viol fk mode (nat_of_int n) dir !db in
+      let ex = match o with
+        | FFkMismatch -> "fkfail"
+        | FOut ADone -> "ok" | FOut (APend PNoPending) -> "ok" | FOut _ -> "fail" in
+      db := d';
+      let js = Stdlib.List.map string_of_bytes d'.d_journal in
+      let ids = Stdlib.List.filter (starts_with "INSERT INTO journal") js |> Stdlib.List.map stmt_id in
+      let sp = Stdlib.List.filter_map (fun s -> match Stdlib.List.assoc_opt s special with Some (nm, _) -> Some nm | None -> None) js in
+      Printf.printf "%s step%d exit=%s journal=[%s] revs=[%s] special=%s viol=[%s]\n" id i ex
+        (String.concat "," ids)
+        (String.concat " " (Stdlib.List.map show_rev (read_revisions d'.d_tbl)))
+        (if sp = [] then "-" else String.concat "" sp)
+        (show_viols (viol d'.d_journal))
+    done
+  | "V" ->
+    let txmode = mode_of (next ()) in
+    let fk = next () = "1" in
+    let n = next_int () in
+    let bad = match next () with "-" -> None | k -> Some (nat_of_int (int_of_string k)) in
+    let canon = Array.init (n + 1) (fun _ -> next_int ()) in
+    let before = parse_viols () in
+    let after = parse_viols () in
+    let stmts = Stdlib.List.init n (fun i -> bytes_of_string (string_of_int i)) in
+    (* the engine: no effect yet -> before; the whole plan -> after (other prefixes are never checked) *)
+    let viol j = if Stdlib.List.length j = n && n > 0 then after else before in
+    let ((o, d'), _) = apply_changes_fk viol txmode stmts bad { s_effects = []; s_fk = fk } in
+    let ex = match o with SOk -> "ok" | SFkMismatch -> "fkfail" | SApplyErr _ -> "fail" in
+    Printf.printf "%s exit=%s state=%d\n" id ex canon.(Stdlib.List.length d'.s_effects)
+  | t -> failwith ("fk line kind " ^ t)
+
 (* dry stage: "D nsteps {mode n dry baseline allow dirty dir}" | "S txmode fk viol N bad canon_0..canon_N" *)
 let run_dry_line id =
   match next () with
@@ -99,13 +168,21 @@ let run_dry_line id =
     let ((o, d'), _) = apply_changes txmode stmts bad viol { s_effects = []; s_fk = fk } in
     let ex = match o with SOk -> "ok" | _ -> "fail" in
     Printf.printf "%s exit=%s state=%d\n" id ex canon.(Stdlib.List.length d'.s_effects)
+  | "V" -> decr pos; run_fk_line id
   | t -> failwith ("dry line kind " ^ t)
 
 let () =
   let dry_stage = Array.length Sys.argv > 1 && Sys.argv.(1) = "dry" in
+  let fk_stage = Array.length Sys.argv > 1 && Sys.argv.(1) = "fk" in
   (try
     while true do
       let line = input_line stdin in
+      if line <> "" && fk_stage then begin
+        toks := Array.of_list (Stdlib.List.filter (fun s -> s <> "") (String.split_on_char ' ' line));
+        pos := 0;
+        let id = next () in
+        run_fk_line id
+      end else
       if line <> "" && dry_stage then begin
         toks := Array.of_list (Stdlib.List.filter (fun s -> s <> "") (String.split_on_char ' ' line));
         pos := 0;
